@@ -296,6 +296,17 @@ var c03Probes = []struct {
 	{"asi-return", "function f(){return\nx}", "function f(){return;x;}"},
 	{"arrow-body-object", "x=()=>({})", "x=(()=>(({})))"},
 	{"in-in-for-init", "for(var i=(a in b);;);", "for(var i=((a) in (b));;);"},
+	{"asi-newline-semicolon", "a\n;b", "a;b"},
+	{"asi-newline-semicolon-if-else", "if(x)a\n;else b", "if(x)a;else b"},
+	{"asi-newline-semicolon-do-while", "do a\n;while(y)", "do a;while(y);"},
+	{"arrow-pattern-default", "x=([c]=[0])=>c", "x=(([c]=([0]))=>c)"},
+	{"arrow-computed-key", "x=({[{m(){}}]:c})=>c", "x=(({[({m(){}})]:c})=>c)"},
+	{"in-inside-brackets-of-for-init", "for(var [a=b in c]=d;;);", "for(var [a=(b in c)]=d;;);"},
+	{"in-inside-arguments-of-for-init", "for(x=f(a in b);;);", "for(x=f((a in b));;);"},
+	{"in-inside-optional-index-of-for-init", "for(x=a?.[b in c];;);", "for(x=a?.[(b in c)];;);"},
+	{"static-async-newline", "class A{static async\n(a){}}", "class A{static async(a){}}"},
+	{"static-block-var", "let a;class b{static{var a}}", "let a;class b{static{var a;}}"},
+	{"nested-body-in-parens", "({}+function(){[a]})", "(({})+(function(){[a];}))"},
 }
 
 func c03Probe(t *fw.T) {
